@@ -28,7 +28,9 @@ func (v verdict) String() string { return [...]string{"MUST_REJECT", "MUST_ACCEP
 const watchdog = 60 * time.Second
 
 // withWatchdog runs fn on its own goroutine and reports whether it returned in time.
-func withWatchdog(fn func()) bool {
+func withWatchdog(fn func()) bool { return withWatchdogFor(watchdog, fn) }
+
+func withWatchdogFor(d time.Duration, fn func()) bool {
 	done := make(chan struct{})
 	go func() {
 		defer close(done)
@@ -37,7 +39,7 @@ func withWatchdog(fn func()) bool {
 	select {
 	case <-done:
 		return true
-	case <-time.After(watchdog):
+	case <-time.After(d):
 		return false
 	}
 }
@@ -60,6 +62,13 @@ func aztecBitBounds(p []byte) (lo, hi int) {
 		return 5 * n, 5 * n
 	case homogeneous(p, func(c byte) bool { return c >= '0' && c <= '9' }):
 		return 5 + 4*n, 5 + 4*n
+	case homogeneous(p, func(c byte) bool { return c == ' ' || (c >= 'a' && c <= 'z') }):
+		return 5 + 5*n, 5 + 5*n // L/L, then 5 bits each
+	case aztecPairsOnly(p):
+		// the two-character PUNCT codes (CR LF, ". ", ", ", ": "): 5 bits per pair after M/L P/L (10 bits),
+		// or P/S + code (10 bits) per pair: the densest text there is (2.5 bits per byte)
+		m := n / 2
+		return min(10*m, 10+5*m), min(10*m, 10+5*m)
 	case homogeneous(p, func(c byte) bool { return c >= 128 }):
 		var b int
 		switch {
@@ -76,6 +85,20 @@ func aztecBitBounds(p []byte) (lo, hi int) {
 		return b, b
 	}
 	return (5*n + 1) / 2, 10*n + 32
+}
+
+func aztecPairsOnly(p []byte) bool {
+	if len(p) == 0 || len(p)%2 != 0 {
+		return false
+	}
+	for i := 0; i < len(p); i += 2 {
+		switch string(p[i : i+2]) {
+		case "\r\n", ". ", ", ", ": ":
+		default:
+			return false
+		}
+	}
+	return true
 }
 
 func aztecVerdict(p []byte, pct, layers int) verdict {
@@ -141,6 +164,8 @@ func pdfCodewordBounds(p []byte) (lo, hi int) {
 		return m, m
 	case homogeneous(p, func(c byte) bool { return c == ' ' || (c >= 'A' && c <= 'Z') }):
 		return (n + 1) / 2, (n + 1) / 2
+	case homogeneous(p, func(c byte) bool { return c == ' ' || (c >= 'a' && c <= 'z') }):
+		return (n + 2) / 2, (n + 2) / 2 // one latch value (27) to the lower sub-mode, then one value each
 	case homogeneous(p, func(c byte) bool { return c >= 128 }) && !utf8.Valid(p) && allInvalid(p):
 		if n == 1 {
 			return 2, 2
@@ -495,6 +520,19 @@ func TestC10Boundaries(t *testing.T) {
 				add(EncSpec{Fam: "pdf417", Content: BStr(strings.Repeat("\xfe", n)), A: l})
 			}
 		}
+		// every homogeneous class at 30..97% of the capacity (limits that are right for one class, wrong for another)
+		if l <= 8 {
+			for _, permille := range []int{300, 500, 650, 800, 900, 970} {
+				b := budget * permille / 1000
+				if b < 2 {
+					continue
+				}
+				add(EncSpec{Fam: "pdf417", Content: BStr(strings.Repeat("7", (b-1)/15*44)), A: l})
+				add(EncSpec{Fam: "pdf417", Content: BStr(strings.Repeat("Q", b*2)), A: l})
+				add(EncSpec{Fam: "pdf417", Content: BStr(strings.Repeat("q", b*2-1)), A: l})
+				add(EncSpec{Fam: "pdf417", Content: BStr(strings.Repeat("\xfe", (b-1)/5*6)), A: l})
+			}
+		}
 		add(EncSpec{Fam: "pdf417", Content: BStr("x"), A: l})
 		add(EncSpec{Fam: "pdf417", Content: BStr(""), A: l})
 	}
@@ -556,6 +594,22 @@ func TestC10Boundaries(t *testing.T) {
 				if bytesN > 0 {
 					add(EncSpec{Fam: "aztec", Content: BStr(strings.Repeat("\x99", bytesN)), A: pct, B: l})
 				}
+			}
+		}
+	}
+	// every homogeneous character class (incl. the densest one: two-character PUNCT codes, 2.5 bits per byte) at
+	// 40..95% of the largest symbol's capacity: length limits that are right for one class and wrong for another
+	for _, pct := range []int{0, 23} {
+		bits := ref.AztecTotalBits(false, 32) * 100 / (100 + pct)
+		for _, permille := range []int{400, 550, 700, 800, 850, 1100, 1500} {
+			b := bits * permille / 1000
+			for _, l := range []int{0, 32} {
+				add(EncSpec{Fam: "aztec", Content: BStr(strings.Repeat(". ", (b-10)/5)), A: pct, B: l})
+				add(EncSpec{Fam: "aztec", Content: BStr(strings.Repeat(", \r\n: . ", (b-10)/20)), A: pct, B: l})
+				add(EncSpec{Fam: "aztec", Content: BStr(strings.Repeat("q", (b-5)/5)), A: pct, B: l})
+				add(EncSpec{Fam: "aztec", Content: BStr(strings.Repeat("M", b/5)), A: pct, B: l})
+				add(EncSpec{Fam: "aztec", Content: BStr(strings.Repeat("4", (b-5)/4)), A: pct, B: l})
+				add(EncSpec{Fam: "aztec", Content: BStr(strings.Repeat("\xe9", (b-21-21*(b/8/2078))/8)), A: pct, B: l})
 			}
 		}
 	}
